@@ -203,7 +203,7 @@ def tie_histories(rng, count):
     ties = ties[:count]
     # ... and a sample of every other special place the pairing knows: poles, equator, the 180-degree meridian, zone
     # transitions, zone rows, pairs that cannot stem from one location
-    for tag in ("pole", "equator", "anti", "anti180", "meridian", "nltrans", "zonerow", "beyondpole", "disp"):
+    for tag in ("pole", "equator", "eqcross", "anti", "anti180", "meridian", "nltrans", "zonerow", "beyondpole", "disp"):
         xs = [x for x in allp if x["tag"] == tag]
         rng.shuffle(xs)
         ties += xs[:max(4, count // 12)]
